@@ -587,7 +587,36 @@ fn through_shell(ctx: &Ctx, n: usize) {
     );
 }
 
+/// `$((x))` and `$(($x))` agree for the variables the shell maintains itself, too (their value is
+/// an integer constant at every point where it can be observed).
+fn shell_maintained_variables(ctx: &Ctx) {
+    let names = ["LINENO", "OPTIND", "PPID", "v"];
+    let prefixes = ["", "\n\n", "f() {\n", "v=7; getopts ab o -a -b; "];
+    for name in names {
+        for (pi, prefix) in prefixes.iter().enumerate() {
+            for form in ["NAME", "NAME+0", "(NAME)*2", "-NAME"] {
+                let bare = form.replace("NAME", name);
+                let dollar = form.replace("NAME", &format!("${name}"));
+                let body = format!("probe k \"$(({bare}))\" \"$(({dollar}))\"");
+                let script = if pi == 2 { format!("v=7\n{prefix}{body}\n}}\nf\n") } else { format!("v=7\n{prefix}{body}\n") };
+                let out = vsh::run_script(&script, Strategy::Fifo);
+                ctx.eval();
+                ctx.count("shell_maintained_variable_cases", 1);
+                let ev = out.events.iter().find(|e| e.kind == "probe" && e.args.first().map(|a| a.as_str()) == Some("k"));
+                match ev {
+                    Some(e) if e.args.len() == 3 && e.args[1] == e.args[2] => ctx.nontrivial_str(&script),
+                    other => ctx.violation(
+                        format!("shell:bare-vs-dollar:{name}"),
+                        format!("$(({bare})) and $(({dollar})) disagree: {:?}\nscript:\n{script}stderr:\n{}", other.map(|e| &e.args), out.err()),
+                    ),
+                }
+            }
+        }
+    }
+}
+
 pub fn run(ctx: &Ctx) {
+    shell_maintained_variables(ctx);
     exhaustive_unary_binary(ctx);
     exhaustive_two_ops(ctx);
     laziness(ctx);
